@@ -238,7 +238,7 @@ impl Number {
             Some(IntegerOrInfinity::Integer(precision)) if (0..=100).contains(&precision) =>
             // 5. If f < 0 or f > 100, throw a RangeError exception.
             {
-                f64_to_exponential_with_precision(this_num, precision as usize)
+                Self::to_exponential_with_precision(this_num, precision as usize)
             }
             _ => {
                 return Err(JsNativeError::range()
@@ -281,10 +281,108 @@ impl Number {
                     .with_message("toFixed() digits argument must be between 0 and 100")
             })? as u8;
 
-        let mut buffer = ryu_js::Buffer::new();
-        let string = buffer.format_to_fixed(this_num, precision);
+        // 6. If x is not finite, return ! Number::toString(x).
+        // 9. If x ≥ 10^21, let m be ! ToString(𝔽(x)).
+        if !this_num.is_finite() || this_num.abs() >= 1e21 {
+            return Ok(JsValue::new(JsString::from(this_num)));
+        }
 
-        Ok(js_string!(string).into())
+        Ok(js_string!(Self::to_fixed_exact(this_num, usize::from(precision))).into())
+    }
+
+    /// The exact decimal expansion of a finite, non-negative `value`, as `(integer digits, fraction digits)`.
+    ///
+    /// Every finite double is a dyadic rational, so the expansion terminates (at most 1074 fraction
+    /// digits), and Rust formats floats exactly for any requested precision.
+    fn exact_decimal(value: f64) -> (String, String) {
+        let mut integer = format!("{value:.1100}");
+        let dot = integer.find('.').expect("formatted with a precision");
+        let fraction = integer.split_off(dot + 1);
+        integer.pop();
+        (integer, fraction)
+    }
+
+    /// Adds one unit in the last place to a string of decimal digits, growing it on overflow.
+    fn increment_decimal(digits: &mut String) {
+        let mut bytes = std::mem::take(digits).into_bytes();
+        let mut i = bytes.len();
+        loop {
+            if i == 0 {
+                bytes.insert(0, b'1');
+                break;
+            }
+            i -= 1;
+            if bytes[i] == b'9' {
+                bytes[i] = b'0';
+            } else {
+                bytes[i] += 1;
+                break;
+            }
+        }
+        *digits = String::from_utf8(bytes).expect("only ascii digits");
+    }
+
+    /// `toFixed` for a finite `value` with `|value| < 10^21`: the integer `n` for which `n / 10^f - x`
+    /// is as close to zero as possible, the larger `n` on ties, printed with `f` fraction digits.
+    fn to_fixed_exact(value: f64, fraction_digits: usize) -> String {
+        let negative = value < 0.0;
+        let (mut integer, fraction) = Self::exact_decimal(value.abs());
+        let round_up = fraction.as_bytes()[fraction_digits] >= b'5';
+        // `n` as a digit string: the integer digits followed by the kept fraction digits.
+        integer.push_str(&fraction[..fraction_digits]);
+        if round_up {
+            Self::increment_decimal(&mut integer);
+        }
+        let split = integer.len() - fraction_digits;
+        let mut result = String::with_capacity(integer.len() + 2);
+        if negative {
+            result.push('-');
+        }
+        result.push_str(&integer[..split]);
+        if fraction_digits > 0 {
+            result.push('.');
+            result.push_str(&integer[split..]);
+        }
+        result
+    }
+
+    /// The `precision` most significant decimal digits of a finite, positive `value`, rounded half up on
+    /// the exact value, and the decimal exponent of the first digit.
+    fn significant_digits(value: f64, precision: usize) -> (String, i32) {
+        let (integer, fraction) = Self::exact_decimal(value);
+        let (mut digits, mut exponent) = if integer == "0" {
+            let zeros = fraction.bytes().take_while(|b| *b == b'0').count();
+            (fraction[zeros..].to_owned(), -(zeros as i32) - 1)
+        } else {
+            let exponent = integer.len() as i32 - 1;
+            (integer + &fraction, exponent)
+        };
+        if Self::round_to_precision(&mut digits, precision) {
+            exponent += 1;
+        }
+        (digits, exponent)
+    }
+
+    /// `toExponential` with an explicit number of fraction digits, for a finite `value`.
+    fn to_exponential_with_precision(value: f64, fraction_digits: usize) -> JsString {
+        let mut result = String::new();
+        if value < 0.0 {
+            result.push('-');
+        }
+        let (digits, exponent) = if value == 0.0 {
+            ("0".repeat(fraction_digits + 1), 0)
+        } else {
+            Self::significant_digits(value.abs(), fraction_digits + 1)
+        };
+        result.push_str(&digits[..1]);
+        if fraction_digits > 0 {
+            result.push('.');
+            result.push_str(&digits[1..]);
+        }
+        result.push('e');
+        result.push(if exponent < 0 { '-' } else { '+' });
+        result.push_str(&exponent.unsigned_abs().to_string());
+        js_string!(result)
     }
 
     /// `Number.prototype.toLocaleString( [locales [, options]] )`
@@ -337,29 +435,6 @@ impl Number {
         {
             Ok(JsValue::new(js_string!(x)))
         }
-    }
-
-    /// `flt_str_to_exp` - used in `to_precision`
-    ///
-    /// This function traverses a string representing a number,
-    /// returning the floored log10 of this number.
-    fn flt_str_to_exp(flt: &str) -> i32 {
-        let mut non_zero_encountered = false;
-        let mut dot_encountered = false;
-        for (i, c) in flt.chars().enumerate() {
-            if c == '.' {
-                if non_zero_encountered {
-                    return (i as i32) - 1;
-                }
-                dot_encountered = true;
-            } else if c != '0' {
-                if dot_encountered {
-                    return 1 - (i as i32);
-                }
-                non_zero_encountered = true;
-            }
-        }
-        (flt.len() as i32) - 1
     }
 
     /// `round_to_precision` - used in `to_precision`
@@ -473,7 +548,7 @@ impl Number {
         // 7
         let mut prefix = String::new(); // spec: 's'
         let mut suffix: String; // spec: 'm'
-        let mut exponent: i32; // spec: 'e'
+        let exponent: i32; // spec: 'e'
 
         // 8
         if this_num < 0.0 {
@@ -490,20 +565,9 @@ impl Number {
             // Due to f64 limitations, this part differs a bit from the spec,
             // but has the same effect. It manipulates the string constructed
             // by `format`: digits with an optional dot between two of them.
-            suffix = format!("{this_num:.100}");
-
-            // a: getting an exponent
-            exponent = Self::flt_str_to_exp(&suffix);
-            // b: getting relevant digits only
-            if exponent < 0 {
-                suffix = suffix.split_off((1 - exponent) as usize);
-            } else if let Some(n) = suffix.find('.') {
-                suffix.remove(n);
-            }
-            // impl: having exactly `precision` digits in `suffix`
-            if Self::round_to_precision(&mut suffix, precision) {
-                exponent += 1;
-            }
+            // a, b: the exponent and exactly `precision` digits in `suffix`, rounded on the
+            // exact decimal expansion of the value.
+            (suffix, exponent) = Self::significant_digits(this_num, precision);
 
             // c: switching to scientific notation
             let great_exp = exponent >= precision_i32;
@@ -947,17 +1011,4 @@ fn f64_to_exponential(n: f64) -> JsString {
         x if x >= 1.0 || x == 0.0 => js_string!(s.cow_replace('e', "e+")),
         _ => js_string!(s),
     }
-}
-
-/// Helper function that formats a float as a ES6-style exponential number string with a given precision.
-// We can't use the same approach as in `f64_to_exponential`
-// because in cases like (0.999).toExponential(0) the result will be 1e0.
-// Instead we get the index of 'e', and if the next character is not '-' we insert the plus sign
-fn f64_to_exponential_with_precision(n: f64, prec: usize) -> JsString {
-    let mut res = format!("{n:.prec$e}");
-    let idx = res.find('e').expect("'e' not found in exponential string");
-    if res.as_bytes()[idx + 1] != b'-' {
-        res.insert(idx + 1, '+');
-    }
-    js_string!(res)
 }
